@@ -14,8 +14,8 @@ KANI_ENV = {
     "CARGO_TERM_COLOR": "never",
 }
 
-MEM_KB = int(os.environ.get("VERIF_MEM_GB", "24")) * 1024 * 1024
-JOBS = int(os.environ.get("VERIF_JOBS", "0")) or min(16, os.cpu_count() or 4)
+MEM_KB = int(os.environ.get("VERIF_MEM_GB", "20")) * 1024 * 1024
+JOBS = int(os.environ.get("VERIF_JOBS", "0")) or min(10, os.cpu_count() or 4)
 
 
 def _env(engine=None):
